@@ -88,6 +88,14 @@ func (c *c18) mkHint(ch *kernel.Chooser) hintInfo {
 	case 4:
 		h.token, h.kind, h.valid = "garbage", "garbage", false
 	}
+	if g.issuer != "" && g.issuer != w.Issuer {
+		// issued by another tenant of this provider: for the tenant addressed now it is a hint of a foreign issuer
+		h.valid = false
+		if h.kind == "genuine" || h.kind == "no-azp" {
+			h.kind = "other-tenant"
+		}
+		c.o.Probe("hints-of-other-tenant")
+	}
 	return h
 }
 
@@ -241,7 +249,11 @@ func (c *c18) logout(ch *kernel.Chooser) string {
 
 func RunC18(t *testing.T, spec kernel.Spec) *kernel.Outcome {
 	o := inBubble(t, spec, func(o *kernel.Outcome, tape *kernel.Tape) {
-		w, err := world.NewStd(o, tape, world.StdOptions{Router: spec.Params["router"], ForceConfig: nil})
+		tenants := 1
+		if tc := tape.Sub("cfg-tenants"); tc.Bool(1, 2) {
+			tenants = 2 + tc.Int(2) // one provider, several issuers (by Host or by Forwarded header behind a proxy)
+		}
+		w, err := world.NewStd(o, tape, world.StdOptions{Router: spec.Params["router"], ForceConfig: nil, Tenants: tenants})
 		if err != nil {
 			o.Infra = "world: " + err.Error()
 			return
@@ -267,6 +279,9 @@ func RunC18(t *testing.T, spec kernel.Spec) *kernel.Outcome {
 		n := 40 + tape.Sub("cfg").Int(40)
 		steps(o, tape, n, func(i int, ch *kernel.Chooser) string {
 			c.step, c.tw.step = i, i
+			if len(w.Issuers) > 1 {
+				w.UseIssuer(ch.Int(len(w.Issuers)))
+			}
 			switch x := ch.Int(10); {
 			case x < 2 || i < 2:
 				d := c.tw.obtain(ch)
@@ -285,7 +300,7 @@ func RunC18(t *testing.T, spec kernel.Spec) *kernel.Outcome {
 				return c.logout(ch)
 			}
 		})
-		o.Log = append([]string{fmt.Sprintf("config: router=%s alg=%s default=%s", w.Router, w.SigAlg, w.Conf.DefaultLogoutRedirectURI)}, o.Log...)
+		o.Log = append([]string{fmt.Sprintf("config: router=%s alg=%s default=%s issuers=%v (%s)", w.Router, w.SigAlg, w.Conf.DefaultLogoutRedirectURI, w.Issuers, w.IssuerMode)}, o.Log...)
 		o.Sample = map[string]any{"seed": spec.Seed, "router": w.Router, "steps": o.Trace}
 	})
 	o.Nontrivial = o.Probes["logout-redirect"] > 0 && o.Probes["logout-rejected"] > 0
